@@ -155,6 +155,12 @@ def main():
     for k in ("exhaustive", "programs", "disagreements_checked", "states", "transitions", "traces_validated_against_impl"):
         if k in res:
             cov[k] = res[k]
+    if "exhaustive" in cov and not isinstance(cov["exhaustive"], bool):
+        cov["exhaustive_note"] = str(cov["exhaustive"])
+        cov["exhaustive"] = False      # only a finite sub-space was enumerated completely; the note says which
+    for k in ("programs", "disagreements_checked", "states", "transitions", "traces_validated_against_impl"):
+        if k in cov and not isinstance(cov[k], int):
+            cov[k + "_note"] = str(cov.pop(k))
     ev = {"property_id": prop, "tier": tier, "seed": seed, "level": META["level"], "coverage": cov,
           "assumptions": META.get("assumptions", []), "wall_s": round(wall, 2), "violations": violations}
     json.dump(ev, open(os.path.join(core.ROOT, "evidence", prop + ".json"), "w"), indent=1, default=str)
